@@ -271,3 +271,96 @@ fn run() {
     }
     r.finish();
 }
+
+// ---- C13: a transport error in the middle of a records stream ------------------------------------------
+// The MPC receive path is `transport stream -> LogErrors -> UnorderedReceiver`. A chunk that arrives as
+// an error ends the stream there: records wholly contained in the bytes before it are delivered to
+// their requests, every later request fails or stays parked - none is handed bytes that were sent for
+// another record.
+// Every chunking of k messages x every position of the error item (further chunks follow it).
+
+#[test]
+fn run_log_errors() {
+    use futures::FutureExt;
+    let mut r = Report::new("C13");
+    let thorough = common::thorough();
+    fn one<M>(k: usize, r: &mut Report)
+    where
+        M: crate::helpers::Message + U128Conversions + PartialEq + std::fmt::Debug,
+    {
+        let sz = <M as Serializable>::Size::USIZE;
+        let mut bytes = Vec::new();
+        for i in 0..k {
+            let mut b = GenericArray::<u8, <M as Serializable>::Size>::default();
+            M::truncate_from((i + 1) as u128).serialize(&mut b);
+            bytes.extend_from_slice(&b);
+        }
+        let n = bytes.len();
+        // every composition of n bytes into chunks
+        for cuts in 0u32..(1 << (n - 1)) {
+            let mut chunks: Vec<Vec<u8>> = Vec::new();
+            let mut cur = vec![bytes[0]];
+            for i in 1..n {
+                if cuts & (1 << (i - 1)) != 0 {
+                    chunks.push(std::mem::take(&mut cur));
+                }
+                cur.push(bytes[i]);
+            }
+            chunks.push(cur);
+            for p in 0..=chunks.len() {
+                let mut items: Vec<Result<Vec<u8>, crate::error::BoxError>> = Vec::new();
+                for (i, c) in chunks.iter().enumerate() {
+                    if i == p {
+                        items.push(Err("connection reset".into()));
+                    }
+                    items.push(Ok(c.clone()));
+                }
+                if p == chunks.len() {
+                    items.push(Err("connection reset".into()));
+                }
+                let good: usize = chunks[..p].iter().map(Vec::len).sum();
+                let stream = crate::helpers::LogErrors::new(futures::stream::iter(items));
+                let rx = UnorderedReceiver::new(Box::pin(stream), NonZeroUsize::new(4).unwrap());
+                r.inc("evaluations");
+                r.inc("distinct_nontrivial");
+                r.inc("lost_chunk_cases");
+                r.inc("states");
+                r.add("transitions", k as u64);
+                for i in 0..k {
+                    let got = rx.recv::<M, _>(i).now_or_never();
+                    let whole = (i + 1) * sz <= good;
+                    let bad = match (&got, whole) {
+                        (Some(Ok(v)), true) => *v != M::truncate_from((i + 1) as u128),
+                        (Some(Ok(_)), false) => true,
+                        (Some(Err(_)), false) => false,
+                        (Some(Err(_)), true) => true,
+                        // a request behind a failed one stays parked (its predecessor never took its
+                        // turn); what it must never get is a message
+                        (None, false) => false,
+                        (None, true) => true,
+                    };
+                    if bad {
+                        r.violation(
+                            &format!("gateway:lost-chunk:{}B", sz),
+                            &format!("{k} messages of {sz} bytes in chunks {:?}, a transport error in front of chunk {p} ({good} bytes arrived before it): receive({i}) returned {:?}, expected {}", chunks.iter().map(Vec::len).collect::<Vec<_>>(), got.as_ref().map(|x| x.as_ref().map_err(|e| format!("{e:?}"))), if whole { format!("message {}", i + 1) } else { "an error (the stream ended at the failed chunk)".to_string() }),
+                            json!({"part":"lost-chunk","k":k,"size":sz,"cuts":cuts,"error_before_chunk":p}),
+                        );
+                        return;
+                    }
+                }
+            }
+        }
+    }
+    for k in 1..=if thorough { 6 } else { 5 } {
+        one::<Fp31>(k, &mut r);
+    }
+    for k in 1..=if thorough { 4 } else { 3 } {
+        one::<Gf20Bit>(k, &mut r);
+    }
+    for k in 1..=if thorough { 5 } else { 4 } {
+        one::<Gf9Bit>(k, &mut r);
+    }
+    r.sample(json!({"messages":3,"size":3,"chunks":[4,1,4],"error_before_chunk":1,"oracle":"receive(0) = message 1, receive(1) and receive(2) fail"}));
+    r.flag("exhaustive", true);
+    r.finish();
+}
